@@ -293,6 +293,8 @@ func f1(x d.T, p *d.T, s d.S, y int) {
 		Reset()
 	s.
 		PM()
+	x.F = 16 /* reset */
+	_ = new(d.T) /* scratch */ /* twice */
 	ws2 := []d.T{
 		{
 			F: 1,
@@ -404,7 +406,21 @@ var GZ = new(d.T)
 		t := strings.NewReplacer("g1(", "k1(", "GZ", "KZ", "g0(", "k0(", "type holder ", "type holder2 ").Replace(l.Text)
 		uc.Lines = append(uc.Lines, IgLine{Text: t, Once: l.Once})
 	}
-	return []*IgBase{{Name: "all16", Files: []*IgFile{d, ua, ub, uc}}}
+	// package v contains no comment at all (its diagnostics come from d's annotations only)
+	va := &IgFile{Pkg: "ex.com/m/v", Name: "a.go"}
+	lines(va, `package v
+
+import "ex.com/m/d"
+
+func bare(x *d.T, s d.S) {
+	x.F = 31
+	x.Xs[0] = 32
+	_ = d.T{}
+	d.Helper()
+	s.PM()
+}
+`)
+	return []*IgBase{{Name: "all16", Files: []*IgFile{d, ua, ub, uc, va}}}
 }
 
 // ---------------------------------------------------------------------------------------------
